@@ -90,6 +90,34 @@ Qed.
 Lemma curved_starts_at_origin od radius : (- od / 2 - radius) + (od / 2 + radius) = 0.
 Proof. field. Qed.
 
+(* the stated bore: radius od/2 - wall, strictly inside the body wherever the wall is positive *)
+Lemma pipe_wall_thickness od wall : 0 < wall -> 0 < od - wall * 2 ->
+  (od - wall * 2) / 2 = od / 2 - wall /\ 0 < (od - wall * 2) / 2 < od / 2.
+Proof. intros Hw Hb. split; [|split]; lra. Qed.
+
+(* placement semantics of a straight / tapered pipe: exactly two leaves under one difference -- the body at the
+   identity and, in the subtracted position, the bore under a pure z translation (so: same axis) *)
+Lemma pipe_straight_placed od wall length center fn_ : 0 < od - wall * 2 ->
+  option_map (flatten mt4_identity []) (pipe_straight od wall length center fn_) =
+  Some [([(Difference, 0%nat)], mt4_identity,
+         Cylinder length (od / 2) (od / 2) center None None (Some (Z.to_N fn_)));
+        ([(Difference, 1%nat)], mt4_translate_matrix 0 0 (if center then 0 else -1),
+         Cylinder (length + 2) ((od - wall * 2) / 2) ((od - wall * 2) / 2) center None None (Some (Z.to_N fn_)))].
+Proof.
+  intros Hpos. rewrite (pipe_straight_shape _ _ _ _ _ Hpos). unfold pipe_straight_solid, cyl, tzR.
+  cbn [option_map flatten mat_of_op flat_map app p3x p3y p3z ndiv ntwo nofZ NumR]. rewrite mt4_mul_identity_l. reflexivity.
+Qed.
+Lemma pipe_tapered_placed od1 od2 wall length center fn_ : 0 < od1 - wall * 2 -> 0 < od2 - wall * 2 ->
+  option_map (flatten mt4_identity []) (pipe_tapered od1 od2 wall length center fn_) =
+  Some [([(Difference, 0%nat)], mt4_identity,
+         Cylinder length (od1 / 2) (od2 / 2) center None None (Some (Z.to_N fn_)));
+        ([(Difference, 1%nat)], mt4_translate_matrix 0 0 (if center then 0 else - (1 / 1000)),
+         Cylinder (length + 2 / 1000) ((od1 - wall * 2) / 2) ((od2 - wall * 2) / 2) center None None (Some (Z.to_N fn_)))].
+Proof.
+  intros H1 H2. rewrite (pipe_tapered_shape _ _ _ _ _ _ H1 H2). unfold pipe_tapered_solid, cyl, tzR.
+  cbn [option_map flatten mat_of_op flat_map app p3x p3y p3z ndiv ntwo nofZ NumR]. rewrite mt4_mul_identity_l. reflexivity.
+Qed.
+
 (* ---------------- C17 ---------------- *)
 Fixpoint unroll_union (t : rtree) : list rtree :=     (* left-deep unions, as built by `a + b` *)
   match t with
